@@ -10,9 +10,12 @@ import (
 
 	"github.com/free5gc/go-upf/internal/verif/c14"
 	"github.com/free5gc/go-upf/internal/verif/c19"
+	"github.com/free5gc/go-upf/internal/verif/seqx"
+	"github.com/free5gc/go-upf/internal/verif/sworld"
 )
 
 var checks = map[string]func(tier string){
+	"C04": sworld.RunC04,
 	"C14": c14.Run,
 	"C19": c19.Run,
 }
@@ -38,6 +41,8 @@ func main() {
 			os.Exit(2)
 		}
 		f(os.Args[3])
+	case "seqx":
+		seqx.WorkerMain(os.Args[2:])
 	default:
 		fmt.Printf("INFRA unknown sub-command %q\n", os.Args[1])
 		os.Exit(2)
